@@ -48,7 +48,7 @@ def one_round(n, tag, probs):
     for c, d in wf.wf_netlist(n):
         probs.append(("malformed-after-uniquify:%s:%s" % (c, tag), d))
     for l in n.libraries:
-        names = [d.name for d in l.definitions]
+        names = [d.name for d in l.definitions if d.name is not None]
         if len(names) != len(set(names)):
             probs.append(("definition-names-not-unique:" + tag, str(names)))
         for d in l.definitions:
@@ -59,18 +59,25 @@ def one_round(n, tag, probs):
     return None
 
 
+EDIF_VARIANTS = ("edif-identifiers", "edif-identifiers-taken", "edif-identifiers-long", "edif-identifiers-nameless")
+
+
 def worker(case):
     probs = []
     variant = case[2] if len(case) > 2 else None
-    ad, n = _hier.prepare(case, policy="EDIF" if variant in ("edif-identifiers", "edif-identifiers-taken") else None)
+    ad, n = _hier.prepare(case, policy="EDIF" if variant in EDIF_VARIANTS else None)
     s = core.sdn()
     from spydrnet.uniquify import uniquify
 
-    if variant in ("edif-identifiers", "edif-identifiers-taken"):
+    if variant in EDIF_VARIANTS:
         for l in n.libraries:
             l["EDIF.identifier"] = "ID_" + l.name
             for d in list(l.definitions):
                 d["EDIF.identifier"] = "ID_" + d.name
+                if variant == "edif-identifiers-long" and not elab.is_leaf_def(d):
+                    d["EDIF.identifier"] = "ID_" + d.name + "_" + "x" * (251 - len(d.name))   # 255 characters
+                if variant == "edif-identifiers-nameless" and not elab.is_leaf_def(d) and d is not n.top_instance.reference:
+                    del d.name
                 for el in list(d.ports) + list(d.cables) + list(d.children):
                     el["EDIF.identifier"] = "ID_" + el.name
                 if variant == "edif-identifiers-taken" and not elab.is_leaf_def(d) and d is not n.top_instance.reference:
@@ -139,6 +146,8 @@ def cases(tier):
             out.append((desc, "asc", "second-round"))
             out.append((desc, "asc", "edif-identifiers"))
             out.append((desc, "asc", "edif-identifiers-taken"))
+            out.append((desc, "asc", "edif-identifiers-long"))
+            out.append((desc, "asc", "edif-identifiers-nameless"))
     return out
 
 
